@@ -101,13 +101,14 @@ SosValidate(e) ==
   /\ UNCHANGED <<kind, t, n, nd, ids, polys, h, tam, seq>>
 
 (* (the phase guards are repeated in front of the quantifiers so that TLC does not enumerate disabled choices) *)
-Next == \/ phase = "deal" /\ kind # "split" /\ \E c \in [1..t -> CoefVals] : Deal(c)
-        \/ phase = "deal" /\ kind = "split" /\ \E pr \in CoefVals : \E f \in [1..(n - 1) -> CoefVals] : Split(pr, f)
-        \/ phase = "dealt" /\ kind = "dkg" /\
-             \E tm \in {<<>>} \cup {<<i, j, d>> : i \in Dealers, j \in Parties, d \in TamperBy} : CheckShares(tm)
-        \/ phase = "dealt" /\ kind \in {"dkg", "client", "split"} /\ \E k \in 1..n : \E sq \in InjSeqs(Parties, k) : Combine(sq)
-        \/ phase = "dealt" /\ kind = "sos" /\
-             \E e \in [Parties -> {"share_ok", "share_bad", "sign_ok", "sign_bad", "nil"}] : SosValidate(e)
+AnyDeal == phase = "deal" /\ kind # "split" /\ \E c \in [1..t -> CoefVals] : Deal(c)
+AnySplit == phase = "deal" /\ kind = "split" /\ \E pr \in CoefVals : \E f \in [1..(n - 1) -> CoefVals] : Split(pr, f)
+AnyCheckShares == phase = "dealt" /\ kind = "dkg" /\
+     \E tm \in {<<>>} \cup {<<i, j, d>> : i \in Dealers, j \in Parties, d \in TamperBy} : CheckShares(tm)
+AnyCombine == phase = "dealt" /\ kind \in {"dkg", "client", "split"} /\ \E k \in 1..n : \E sq \in InjSeqs(Parties, k) : Combine(sq)
+AnySosValidate == phase = "dealt" /\ kind = "sos" /\
+     \E e \in [Parties -> {"share_ok", "share_bad", "sign_ok", "sign_bad", "nil"}] : SosValidate(e)
+Next == AnyDeal \/ AnySplit \/ AnyCheckShares \/ AnyCombine \/ AnySosValidate
 Spec == Init /\ [][Next]_vars
 
 (* ---- what the code decides (the verdicts the real functions must return) -- *)
